@@ -104,6 +104,9 @@ func WithRNG(rng *rand.Rand) resource.Option {
 func calcModelArgs(opts ...resource.Option) modelArgs {
 	args := new(modelArgs)
 	args.apply(DefaultModelOptions...)
+	// DefaultModelOptions is shared by every model, and a *rand.Rand must not be: each model guards the one
+	// it uses with its own locks
+	args.apply(WithRNG(rand.New(rand.NewSource(rand.Int63()))))
 	args.apply(opts...)
 	return *args
 }
